@@ -504,6 +504,13 @@ class ArmAnalyzer:
             self._bind_pat(cl["params"][0], ("some", r), env2)
             body = self._expr(cl["body"], env2, conds + [(("matches", "Some(_)", r), True)], depth)
             return ("andthen" if m == "and_then" else "optmap", r, body)
+        if m in ("is_ok_and", "is_some_and") and len(e["args"]) == 1 and e["args"][0]["k"] == "Closure" and len(e["args"][0]["params"]) == 1:
+            cl = e["args"][0]
+            env2 = dict(env)
+            self._bind_pat(cl["params"][0], ("some", r), env2)
+            c0 = ("matches", "Some(_)", r)
+            body = self._expr(cl["body"], env2, conds + [(c0, True)], depth)
+            return ("bin", "&&", c0, body)
         args = [self._expr(a, env, conds, depth) for a in e["args"]]
         args = [a for a in args if a != ("lit", "self")]
         if m in ACCESSORS:
@@ -518,6 +525,10 @@ class ArmAnalyzer:
             return s
         if m in ("into", "clone", "to_owned", "borrow", "as_ref", "as_mut", "copied", "cloned"):
             return r
+        if m == "parse" and r[0] in ("opnd", "imm"):
+            return ("parsed", r)
+        if m in ("unwrap", "expect") and r[0] == "parsed":
+            return r[1]
         if m in ("unwrap", "expect"):
             self.events.append(Ev("unwrap", (r,), conds, L))
             return ("some", r)
